@@ -10,9 +10,17 @@ NEEDS = {
  "C06e-2": "an entry callback returning (keepGoing=false, err!=nil): the !keepGoing test moved ahead of the err test, DiffIter returns nil for a truncated diff",
  "C08e-1": "a NodeCache and a flush in which a dirty node encodes to already-cached bytes, followed by one more node (second tree on the same store+cache): a hasher reused across the flush is reset after the cache short-cut",
  "C08e-2": "v1marshaler and a height growth that creates a key-less intermediate node (common at bf 2), flushed before it is modified: extract() yields nil slices, encoded as null instead of []",
+ "C03e-1": "an injected Store failure while another write of the same flush is already in flight and succeeds after it (firstStoreError overwritten by nil)",
+ "C03e-2": "a NodeCache, a Store fault during one MakeRoot, then a retry, then a reader without that cache (cache.Add moved from the commit closure to where the write is queued)",
+ "C11e-1": "NodeCache shared by >= 2 trees, v1.1.5binary, a cold miss in one goroutine and a mutating hit on the same hash by another tree before the loader resumes (shared/source set after nodeCache.Add)",
+ "C11e-2": "a shared cached left node with spare slice capacity (entered the cache through a flush commit), two trees each merging it with a different right sibling (append onto shared arrays in mergeNodes)",
+ "C12e-1": "Delete of a key at layer >= 2 whose left child is an unsaved modified node, grandchildren next to the key only in the store, Load fault in the nested merge (left node extended in place before the fallible recursion)",
+ "C12e-2": "a cursor fresh from Cursor()/Ceil() whose path slice is exactly at capacity, Forward into a right subtree >= 2 levels deep, fault on the 2nd or later Load (undo written through a stale pointer after append reallocated)",
+ "C16e-1": "a persisted root that is still a link name, no NodeCache, a layer-0 key: Get loads the root twice (height+2 Loads)",
+ "C16e-2": "height > 0, a top node with exactly one key and a left child, no NodeCache: checkRoot loads that child, LoadMast reads 2 nodes",
  "C09e-1": "", "C09e-2": "",
 }
-for f in sorted(glob.glob("/tmp/r5-eval/C??e-?.json")):
+for f in sorted([x for x in glob.glob("/tmp/r5-eval/C??e-?.json")]):
     sid = os.path.basename(f)[:-5]
     r = json.load(open(f))
     ok = all(r.get(k) for k in ("applies", "builds", "suite_passes_with_change", "demo_fails_with_change", "demo_passes_without_change"))
@@ -33,5 +41,11 @@ for f in sorted(glob.glob("/tmp/r5-eval/C??e-?.json")):
                                 "demonstration_fails_with_change": True, "demonstration_passes_without_change": True,
                                 "how": "tools/seed_eval.py on a scratch worktree (git apply; go test -vet=off -count=1 ./...; demo placed per its package clause; go test -run <its tests>)"},
             "checks_run_quick_tier": ch, "caught_by": caught, "not_caught_by": missed, "inconclusive": incon}
+    ff = f[:-5] + ".first.json"
+    if os.path.exists(ff):
+        fr = json.load(open(ff)).get("checks", {})
+        meta["history"] = {"first_run_caught_by": sorted(k for k, v in fr.items() if v["exit"] == 1),
+                           "first_run_missed_by_own_check": fr.get(sid[:3], {}).get("exit") == 0,
+                           "rerun_after_strengthening": {k: v["exit"] for k, v in ch.items()}}
     json.dump(meta, open(os.path.join(dst, "meta.json"), "w"), indent=1)
     print(sid, "own-check" if sid[:3] in caught else "OWN CHECK MISSED", caught)
